@@ -86,15 +86,23 @@ func (o *OvsSet) UnmarshalJSON(b []byte) (err error) {
 	case []interface{}:
 		var oSet []interface{}
 		oSet = inter.([]interface{})
+		typeError := &json.UnmarshalTypeError{Value: reflect.ValueOf(inter).String(), Type: reflect.TypeOf(*o)}
 		// it's a single uuid object
 		if len(oSet) == 2 && (oSet[0] == "uuid" || oSet[0] == "named-uuid") {
-			return addToSet(o, UUID{GoUUID: oSet[1].(string)})
+			uuid, ok := oSet[1].(string)
+			if !ok {
+				return typeError
+			}
+			return addToSet(o, UUID{GoUUID: uuid})
 		}
-		if oSet[0] != "set" {
+		if len(oSet) != 2 || oSet[0] != "set" {
 			// it is a slice, but is not a set
-			return &json.UnmarshalTypeError{Value: reflect.ValueOf(inter).String(), Type: reflect.TypeOf(*o)}
+			return typeError
 		}
-		innerSet := oSet[1].([]interface{})
+		innerSet, ok := oSet[1].([]interface{})
+		if !ok {
+			return typeError
+		}
 		for _, val := range innerSet {
 			err := addToSet(o, val)
 			if err != nil {
